@@ -12,7 +12,7 @@ theorem wfTyB_sound : ∀ t : VTy, wfTyB t = true → WFTy t
   | .pair a b, h => by
     simp only [wfTyB, Bool.and_eq_true] at h
     exact ⟨wfTyB_sound a h.1, wfTyB_sound b h.2⟩
-  | .bool, _ => trivial | .string, _ => trivial | .uint128, _ => trivial | .addr, _ => trivial | .empty, _ => trivial
+  | .bool, _ => trivial | .string, _ => trivial | .uint128, _ => trivial | .addr, _ => trivial | .empty, _ => trivial | .binary, _ => trivial
 
 theorem disjointB_sound (ps : List PartSpec) (h : disjointB ps = true) : C03.ListsDisjoint ps := by
   intro i j pi pj hij hi hj k hk hk'
